@@ -243,6 +243,9 @@ class Ctx:
         self.atol_rel = atol_rel
         self.faces_as_cycles = faces_as_cycles
         self.frame_invariants = False
+        # an observable that raises before and after is "unchanged" whatever the type
+        # (outside coxeter's working range the vendored helpers fail chaotically)
+        self.lenient_raise_type = False
         self.skip = set(skip)
         self.notes = []
 
@@ -427,7 +430,7 @@ def _diff(a, b, ctx, prefix=""):
                 va if ka == "raises" else "value", vb if kb_ == "raises" else "value")))
             continue
         if ka == "raises":
-            if va != vb:
+            if va != vb and not ctx.lenient_raise_type:
                 out.append((prefix + n, "raises %s vs %s" % (va, vb)))
             continue
         if n == "is_inside" and ctx.nbase:
@@ -515,6 +518,7 @@ def diff_unchanged(a, b, nbase=0, skip=(), ops=1):
     L = length_scale(a, b)
     ops = max(1, int(ops))
     ctx = Ctx(L, 1e-11 * ops, 1e-11 * ops, False, skip)
+    ctx.lenient_raise_type = True
     ctx.nbase = nbase
     out = _diff(a, b, ctx)
     geo = Ctx(L, 0.0, 0.0, False, ())
